@@ -92,7 +92,10 @@ def prepare_subproject(sub, seed=0):
     p = b.project
     out = None
     if sub.get("simulate", True):
-        rec, out = simulate(p, sub["cfg"], want_snap=False)
+        if sub.get("backward") is not None:
+            rec, out = simulate(p, sub["cfg"], want_snap=False, backward=sub["backward"])
+        else:
+            rec, out = simulate(p, sub["cfg"], want_snap=False)
     ow = D.call(lambda: p.write_simple_json(sub["file"]))
     return p, out, ow
 
